@@ -118,15 +118,15 @@ func checkPU(r *common.Run, s string, base, bs int) (oracleErr bool) {
 		r.Violation("ParseUint|wrong-value|"+puClass(s, base, bs),
 			fmt.Sprintf("strz.ParseUint(%q, %d, %d) = %d, nil; strconv.ParseUint = %d, nil", s, base, bs, g1, want), in(), puTest(s, base, bs))
 	case e1 != nil && g1 != want:
-		// both fail. The value strconv returns with an error is documented (0 for syntax, the
-		// largest bitSize-bit value for range) and the property says "agrees on the value ... for
-		// every string, base and bit size" — demanded where strconv accepts base and bit size.
-		if strconvAccepts(base, bs) {
-			r.Violation("ParseUint|wrong-value-with-error|"+puBaseClass(base, bs),
-				fmt.Sprintf("strz.ParseUint(%q, %d, %d) = %d, %v; strconv.ParseUint = %d, %v (value returned together with the error differs)", s, base, bs, g1, e1, want, werr), in(), puTest(s, base, bs))
-		} else {
-			info.add("ParseUint: value returned with an invalid base / bit size error differs", fmt.Sprintf("(%q,%d,%d): strz %d, strconv %d", s, base, bs, g1, want))
+		// both fail. The value strconv returns with an error is documented (0 for syntax and for an
+		// invalid base / bit size, the largest bitSize-bit value for range) and the property says
+		// "agrees on the value ... for every string, base and bit size".
+		cls := puBaseClass(base, bs)
+		if !strconvAccepts(base, bs) {
+			cls = "invalid-base-or-bit-size"
 		}
+		r.Violation("ParseUint|wrong-value-with-error|"+cls,
+			fmt.Sprintf("strz.ParseUint(%q, %d, %d) = %d, %v; strconv.ParseUint = %d, %v (value returned together with the error differs)", s, base, bs, g1, e1, want, werr), in(), puTest(s, base, bs))
 	}
 	return werr != nil
 }
